@@ -189,7 +189,10 @@ def prove(ex, name, formula, detail='', env=None):
                 wit = ex.spec_bool(wclause, env, ex.old_store) if wclause else z3.BoolVal(True)
             except ContractError as e:
                 raise ContractError('finding %s: witness clause: %s' % (fid, e))
-            v2, model2, _ = smt.check(P.pc + [z3.Not(formula), z3.Not(wit)], want_model=True)
+            if z3.is_true(z3.simplify(wit)):
+                v2, model2 = 'unsat', None        # the recorded finding covers every counterexample of this obligation
+            else:
+                v2, model2, _ = smt.check(P.pc + [z3.Not(formula), z3.Not(wit)], want_model=True)
             if v2 == 'unsat':
                 verdict, known = 'known', fid
                 break
